@@ -86,6 +86,31 @@ theorem C18_indent (h : Heap) (o : Opts) (n : Nat) (e : Entry) (a : Addr) (st : 
     (hk : (dispatch h o n e a st).status = .ok) : (dispatch h o n e a st).st.indent = st.indent :=
   dispatch_indent o n e a st hk
 
+/-- **The hypothesis of `C18_fuel` is needed, and the model shares the code's behaviour outside it.** For the class whose base type
+    is a `Forall` with that class as target (`S : class = c`, `c : base forall<>(c)`; `cyclicClassHeap`) no rank exists, and the
+    model exhausts every amount of fuel on `xpr_decl` of the type declaration, on the unit and on `xpr_type` of the `Forall` —
+    it never yields text or `logic_error`.  The real printer overflows its stack on the same graph (recorded as the known
+    finding `cycle:unnamed-class-self-base`). -/
+theorem C18_cyclic_class_outside_hypothesis :
+    (¬ ∃ rank : Addr → Nat, Ranked (heapOf cyclicClassHeap) rank) ∧
+    ∀ (o : Opts) (fuel : Nat) (fmt : Fmt),
+      (print (heapOf cyclicClassHeap) o fuel .decl 0 fmt).status = .fuel ∧
+      (print (heapOf cyclicClassHeap) o fuel .declsemi 0 fmt).status = .fuel ∧
+      (print (heapOf cyclicClassHeap) o fuel .type 7 fmt).status = .fuel ∧
+      (print (heapOf cyclicClassHeap) o fuel .expr 9 fmt).status = .fuel := by
+  refine ⟨?_, cyclicClass_exhausts⟩
+  rintro ⟨rank, hr⟩
+  have h46 := hr 4 6 (by decide +kernel)
+  have h67 := hr 6 7 (by decide +kernel)
+  have h74 := hr 7 4 (by decide +kernel)
+  have e46 : ¬ (6 = 4 ∧ Loop (heapOf cyclicClassHeap) 4) := by simp
+  have e67 : ¬ (7 = 6 ∧ Loop (heapOf cyclicClassHeap) 6) := by simp
+  have e74 : ¬ (4 = 7 ∧ Loop (heapOf cyclicClassHeap) 7) := by simp
+  have a := h46.resolve_right e46
+  have b := h67.resolve_right e67
+  have c := h74.resolve_right e74
+  omega
+
 /-! ## Non-vacuity -/
 
 /-- The sample heap (which contains a built-in type that is its own operand) is ranked by its addresses … -/
